@@ -155,8 +155,10 @@ CloseBlock ==
   /\ chan' = IF chan = hdr.nchan THEN 1 ELSE chan + 1
   /\ nblocks' = nblocks + 1 /\ phase' = "cmd"
   /\ UNCHANGED <<hdr, blocksize, bitshift, cur>>
+\* (any size up to the one the header announced - the decoder's buffers are allocated for that -, smaller OR larger
+\* than the one in force: an encoder shortens a block before a cut and returns to the full size afterwards)
 SetBlocksize(b) ==
-  /\ phase = "cmd" /\ chan = 1 /\ b < blocksize /\ b >= 1 /\ nblocks < MaxBlocks /\ Len(note) < MaxBlocks + 1
+  /\ phase = "cmd" /\ chan = 1 /\ b # blocksize /\ b >= 1 /\ b <= hdr.bs /\ nblocks < MaxBlocks /\ Len(note) < MaxBlocks + 1
   /\ bits' = bits \o UvarBits(FN_BLOCKSIZE, 2) \o UlongBits(b) /\ blocksize' = b /\ note' = Append(note, FN_BLOCKSIZE)
   /\ UNCHANGED <<hdr, bitshift, chan, hist, offs, phase, cur, data, nblocks>>
 \* The shift is decoder-wide state and BITSHIFT may stand before ANY block: an encoder emits it between the channel
